@@ -406,7 +406,7 @@ impl<'a> Gen<'a> {
         }
         match self.r.below(5) {
             0 => {
-                let s = ["Hello", "ab", "x", "data;1", "A,B", ""][self.r.usize(6)];
+                let s = ["Hello", "ab", "x", "data;1", "A,B", "", "C:\\tmp\\x", "tab\\t", "50% \\ 2", "it's", "a;b\\c"][self.r.usize(11)];
                 l.push(format!(".db \"{}\", {}", s, self.num(255)));
                 self.words_upper += 5;
             }
@@ -581,7 +581,17 @@ impl<'a> Gen<'a> {
         let line = match np {
             0 => format!("    {}", n),
             1 => format!("    {} r{}", n, self.r.range(16, 31)),
-            _ => format!("    {} r{}, {}", n, self.r.range(16, 31), self.num(200)),
+            // the second argument is re-rendered as text when the body is expanded: plain
+            // numbers, and compound expressions whose rendering has to keep their meaning
+            _ => {
+                let arg = match self.r.below(5) {
+                    0 => format!("({}+{})*{}", self.r.below(9), self.r.below(9), self.r.range(1, 4)),
+                    1 => format!("{}-({}-{})", self.r.range(20, 60), self.r.below(9), self.r.below(9)),
+                    2 => format!("({}|{})&{}", self.r.below(16), self.r.below(16), self.r.below(32)),
+                    _ => self.num(200),
+                };
+                format!("    {} r{}, {}", n, self.r.range(16, 31), arg)
+            }
         };
         Node::Lines(vec![line])
     }
